@@ -56,6 +56,7 @@ pub fn lookup(scen: &str) -> Option<Scenario> {
         "rtsweep" => scen_rt::run_short_sweep,
         "synth" => scen_synth::run,
         "bent" => scen_bent::run,
+        "sizes" => scen_rt::run_sizes,
         "dmggen" => scen_dmg::run_gen,
         "c06gen" => scen_rd::run_c06_gen,
         "c07gen" => scen_rd::run_c07_gen,
